@@ -177,6 +177,8 @@ type vHWorld struct {
 	cancel   context.CancelFunc
 	conns    []*vHConn
 	portPeer map[string]int
+	rawMC    []int // max_connections as configured, per upstream
+	ucc      int   // passive unhealthy_connection_count as configured
 }
 
 type vHConn struct {
@@ -204,6 +206,16 @@ type vHSpec struct {
 func vNewWorld(spec vHSpec) (*vHWorld, error) {
 	ctx, cancel := caddy.NewContext(caddy.Context{Context: context.Background()})
 	w := &vHWorld{cancel: cancel, passive: spec.passive, fd: spec.failDur.Milliseconds(), mfRaw: spec.maxFails, portPeer: map[string]int{}}
+	if spec.passive {
+		w.ucc = spec.unhealthyCnt
+	}
+	for ui := range spec.topo {
+		mc := 0
+		if ui < len(spec.maxConns) {
+			mc = spec.maxConns[ui]
+		}
+		w.rawMC = append(w.rawMC, mc)
+	}
 	var pool UpstreamPool
 	for ui, ps := range spec.topo {
 		u := &Upstream{}
@@ -470,9 +482,21 @@ func (w *vHWorld) cfgCoq() string {
 			ss[i] = strconv.Itoa(p)
 		}
 		ts = append(ts, "["+strings.Join(ss, "; ")+"]")
-		mcs = append(mcs, strconv.Itoa(w.h.Upstreams[ui].MaxConnections))
+		mcs = append(mcs, strconv.Itoa(w.rawMC[ui]))
 	}
-	return fmt.Sprintf("(H %s %d %d [%s] [%s])", cBool(w.passive), w.fd, w.mfRaw, strings.Join(ts, "; "), strings.Join(mcs, "; "))
+	return fmt.Sprintf("(H %s %d %d [%s] [%s] %d)", cBool(w.passive), w.fd, w.mfRaw, strings.Join(ts, "; "), strings.Join(mcs, "; "), w.ucc)
+}
+
+// the limit the configuration asks for: max_connections of the upstream if set, else the passive
+// unhealthy_connection_count
+func (w *vHWorld) limit(ui int) int {
+	if w.rawMC[ui] != 0 {
+		return w.rawMC[ui]
+	}
+	if w.ucc > 0 {
+		return w.ucc
+	}
+	return 0
 }
 
 func (w *vHWorld) maxFailsEff() int {
@@ -543,7 +567,7 @@ func (w *vHWorld) oracle(s vHSample) [][2]string {
 				out = true
 			}
 		}
-		mc := w.h.Upstreams[ui].MaxConnections
+		mc := w.limit(ui)
 		limited := mc > 0 && s.nOpen[ui] >= mc
 		if mc > 0 && s.nOpen[ui] > mc {
 			add("C11:max_connections:exceeded", fmt.Sprintf("upstream %d has max_connections %d but %d proxied connections are open", ui, mc, s.nOpen[ui]))
@@ -592,6 +616,16 @@ func vRunHistory(spec vHSpec, script []string, seed uint64) (res vHResult) {
 		return
 	}
 	defer w.close()
+	{
+		lim := make([]int64, len(w.h.Upstreams))
+		for ui, u := range w.h.Upstreams {
+			lim[ui] = int64(u.MaxConnections)
+			if u.MaxConnections != w.limit(ui) {
+				res.fails = append(res.fails, [2]string{"C11:max_connections:limit-not-provisioned", fmt.Sprintf("upstream %d: max_connections %d, unhealthy_connection_count %d, fail_duration %d ms configured, but the provisioned limit is %d", ui, w.rawMC[ui], w.ucc, w.fd, u.MaxConnections)})
+			}
+		}
+		res.cases = append(res.cases, [3]string{fmt.Sprintf("HLimits %s %s", w.cfgCoq(), cZList(lim)), "provision/limits", b2s1(w.ucc > 0)})
+	}
 	served := []int{}
 	for _, st := range script {
 		fs := strings.Split(st, ":")
@@ -636,6 +670,14 @@ func vRunHistory(spec vHSpec, script []string, seed uint64) (res vHResult) {
 		case "probe":
 			if arg < len(w.lst) {
 				w.probe(arg)
+			}
+		case "fail":
+			// a dial of peer arg fails now (white box: what dialPeers does on an error), whatever the
+			// rotation says: a connection that selected the upstream earlier and whose dial fails late
+			if arg < len(w.peerOf) {
+				t := w.now()
+				w.h.countFailure(w.peerOf[arg])
+				w.events = append(w.events, vHEvent{t: t, kind: "fail", a: arg})
 			}
 		case "sleep":
 			time.Sleep(time.Duration(arg) * time.Millisecond)
@@ -862,6 +904,29 @@ func TestVerifC11(t *testing.T) {
 		[]string{"conn", "conn", "conn", "close:1", "conn", "close:0", "close:0", "close:0"})
 	addHist(vHSpec{topo: [][]bool{{true, true}}, passive: false, maxConns: []int{2}, tryDur: 0, policy: "first"},
 		[]string{"conn", "conn", "conn", "close:0", "close:0", "close:0"})
+	// 4b. the configuration grid for the limit: max_connections set/unset x unhealthy_connection_count
+	// set/unset x fail_duration set/unset, through Handler.Provision; three connections, then closes
+	for g := 0; g < 8; g++ {
+		spec := vHSpec{topo: [][]bool{{true}, {true}}, passive: true, tryDur: 0, policy: "first", maxFails: 1}
+		if g&1 != 0 {
+			spec.maxConns = []int{1, 0}
+		}
+		if g&2 != 0 {
+			spec.unhealthyCnt = 2
+		}
+		if g&4 != 0 {
+			spec.failDur = 300 * ms
+		}
+		addHist(spec, []string{"conn", "conn", "conn", "conn", "close:0", "conn", "close:0", "close:0", "close:0", "close:0"})
+	}
+	// 4c. dial failures that land while the upstream is already out of rotation (connections that
+	// selected it earlier and fail late): the window must run from the LATEST failure
+	for _, mf := range []int{1, 2} {
+		for _, fd := range []int{400, 700} {
+			spec := vHSpec{topo: [][]bool{{true}, {true}}, passive: true, failDur: time.Duration(fd) * ms, maxFails: mf, tryDur: 0, policy: "first"}
+			addHist(spec, []string{"fail:0", "sleep:60", "fail:0", "sleep:80", "fail:0", "sleep:120", "fail:0", "conn", "expire", "conn", "close:0", "close:0"})
+		}
+	}
 	// 5. random histories
 	nr := vN(16)
 	for i := 0; i < nr; i++ {
@@ -899,7 +964,11 @@ func TestVerifC11(t *testing.T) {
 			case 6:
 				script = append(script, fmt.Sprintf("probe:%d", rng.Intn(np)))
 			case 7:
-				script = append(script, "expire")
+				if rng.Intn(2) == 0 {
+					script = append(script, "expire")
+				} else {
+					script = append(script, fmt.Sprintf("fail:%d", rng.Intn(np)))
+				}
 			default:
 				script = append(script, fmt.Sprintf("sleep:%d", 30+rng.Intn(120)))
 			}
